@@ -274,6 +274,11 @@ def build_case(Ls, Rs, script, label, wrap=False):
     R = parse(Rs, wrap)
     if not supported(L) or not all(typed_ok(a) for a in script):
         return None
+    if R is not None and L.nsmap.get(None) != R.nsmap.get(None):
+        # the roots differ in the default namespace: outside the model's stated domain (the prefix lxml invents for a
+        # created node of a namespace that only the right root declares as its default is not modelled; the differ's
+        # own scripts for such pairs are the open finding default-namespace-differs, judged by the oracle)
+        return None
     res = impl_format(L, script)
     if res[0] == "err" and res[1].startswith("other:"):
         return None
